@@ -275,6 +275,16 @@ fn check_cli(c: &Case, ctx: &Ctx) -> Outcome {
             let exp = tab(order[0]).merge(tab(order[1])).merge(tab(order[2]));
             model::compare_nk(&nk(ctx, &dir, &format!("{out}.skf"))?, &exp, k, rc, Some(k_bits_for(k))).map_err(|m| Outcome::Fail(format!("merge {order:?}: {m}")))?;
         }
+        // the same three tables as files of one name in three directories (batch1/run.skf, batch2/run.skf, ...)
+        {
+            for (d, f) in [("batch1", "x.skf"), ("batch2", "o.skf"), ("batch3", "z.skf")] {
+                std::fs::create_dir_all(dir.join(d)).map_err(|e| Outcome::Infra(e.to_string()))?;
+                std::fs::copy(dir.join(f), dir.join(d).join("run.skf")).map_err(|e| Outcome::Infra(e.to_string()))?;
+            }
+            let (args, exp): (Vec<&str>, Table) = if k % 4 < 2 { (vec!["merge", "batch1/run.skf", "batch2/run.skf", "batch3/run.skf", "-o", "batches"], t.merge(&to).merge(&tz)) } else { (vec!["merge", "batch2/run.skf", "batch1/run.skf", "-o", "batches"], to.merge(&t)) };
+            must_ok(&run_ska(ctx, &dir, &args), &format!("ska {}", args.join(" ")))?;
+            model::compare_nk(&nk(ctx, &dir, "batches.skf")?, &exp, k, rc, Some(k_bits_for(k))).map_err(|m| Outcome::Fail(format!("ska {}: {m}", args.join(" "))))?;
+        }
         // weed with the first sample's records, then the rewritten file must still be the right width
         cli::write_fasta_auto(&dir.join("w.fa"), &samples[0].1, None);
         must_ok(&run_ska(ctx, &dir, &["weed", "x.skf", "w.fa", "--min-freq", "0", "-o", "xw.skf"]), "ska weed")?;
